@@ -251,6 +251,174 @@ fn stream_fronts(r: &mut Run) {
         r.verdict(idx, "woz2/from_bytes", &o, &desc);
         r.case(&b, true);
     }
+    // F3 IMD container: synthetic files (header, comment, 0..3 track records with small sectors), then mutated
+    let n = r.ctx.n(500, 20000);
+    let mut imds: Vec<Vec<u8>> = vec![imd_synth(&mut Rng::new(1), 0), imd_synth(&mut Rng::new(2), 1)];
+    for k in 0..n {
+        let mut g = rng.fork(0x1AD + k as u64);
+        let flavour = g.below(8);
+        let mut b = imd_synth(&mut g, flavour);
+        match g.below(10) {
+            0 => { let n = g.below(b.len() + 1); b.truncate(n); }
+            1 => { if !b.is_empty() { let i = g.below(b.len()); b[i] = g.byte(); } }
+            2 => { if b.len() > 34 { let i = g.range(29, b.len() - 1); b[i] = *g.pick(&[0u8, 9, 0xFF, 0x1a, 7, 255, 0x80, 0xC0]); } }
+            3 => { let n = g.below(6); b.extend(g.bytes(n)); }
+            _ => {}
+        }
+        imds.push(b);
+    }
+    for b in imds {
+        let Some(idx) = r.claim() else { continue };
+        let desc = cliphex(&b, 160);
+        r.mark(idx, "imd/from_bytes", &desc);
+        let b2 = b.clone();
+        let o = watched(5000, move || a2kit::img::imd::Imd::from_bytes(&b2).map(|_| String::new()).map_err(|_| ()));
+        r.q(&format!("c12 imd {}", hx(&b)), o.class());
+        r.verdict(idx, "imd/from_bytes", &o, &desc);
+        if o.class() == "ok" { // what the file system probes do next with an accepted image (oracle only)
+            let b3 = b.clone();
+            r.mark(idx, "imd/read", &desc);
+            let o2 = watched(5000, move || {
+                let mut img = a2kit::img::imd::Imd::from_bytes(&b3).map_err(|_| ())?;
+                let _ = img.read_sector(0, 0, 1); let _ = img.read_sector(0, 0, 0); let _ = img.byte_capacity(); let _ = img.get_track_solution(0);
+                let _ = img.read_block(Block::FAT((0, 1))); let _ = img.read_block(Block::CPM((0, 3, 0))); let _ = img.read_block(Block::CPM((0, 3, 1)));
+                Ok(String::new())
+            });
+            r.verdict(idx, "imd/read", &o2, &desc);
+        }
+        r.case(&b, true);
+    }
+    // F5 2MG container: header fields around the file length, payload all zero (so wrapped nibbles never solve)
+    let n = r.ctx.n(250, 10000);
+    for k in 0..n {
+        let mut g = rng.fork(0x2A6 + k as u64);
+        let fmt = *g.pick(&[0u32, 1, 1, 1, 2, 3, 0xFFFF_FFFF]);
+        let dlen = *g.pick(&[143360u32, 143360, 143360, 143359, 143872, 147456, 232960, 223440, 0, 512, 0x8000_0000, 0xFFFF_FFFF]);
+        let doff = *g.pick(&[64u32, 64, 64, 64, 63, 0, 65, 1024, 0xFFFF_FFFF]);
+        let blocks = *g.pick(&[280u32, 280, 281, 0, 288, 0xFFFF_FFFF]);
+        let flen = (*g.pick(&[64i64 + 143360, 64 + 143360, 64 + 143359, 64 + 143360 + 40, 64 + 232960, 63, 64, 100, 64 + 147456])) as usize;
+        let (coff, clen) = *g.pick(&[(0u32, 0u32), (64 + 143360, 40), (64 + 143360, 41), (0xFFFF_FFFF, 0xFFFF_FFFF), (10, 5), (flen as u32, 0), (flen as u32, 1)]);
+        let (roff, rlen) = *g.pick(&[(0u32, 0u32), (64 + 143360, 40), (0xFFFF_FFFF, 1), (5, 0xFFFF_FFF0), (flen as u32 - flen.min(3) as u32, 3)]);
+        let mut b = vec![0u8; flen];
+        let mut hdr: Vec<u8> = Vec::new();
+        hdr.extend_from_slice(if g.chance(92) { b"2IMG" } else { b"2IMH" }); hdr.extend_from_slice(b"2KIT");
+        hdr.extend_from_slice(&[64, 0, 1, 0]);
+        for v in [fmt, 0u32, blocks, doff, dlen, coff, clen, roff, rlen] { hdr.extend_from_slice(&v.to_le_bytes()); }
+        hdr.resize(64, 0);
+        let m = hdr.len().min(b.len()); b[..m].copy_from_slice(&hdr[..m]);
+        let Some(idx) = r.claim() else { continue };
+        let desc = format!("2MG header {} file length {}", hx(&b[..m]), flen);
+        r.mark(idx, "2mg/from_bytes", &desc);
+        let b2 = b.clone();
+        let o = watched(5000, move || a2kit::img::dot2mg::Dot2mg::from_bytes(&b2).map(|_| String::new()).map_err(|_| ()));
+        r.q(&format!("c12 mg2 {} {} 0", hx(&b[..m]), flen), o.class());
+        r.verdict(idx, "2mg/from_bytes", &o, &desc);
+        r.case(desc.as_bytes(), true);
+    }
+    // F4b TD0 container, normal mode ("TD", no LZSS): hand-made records with a valid header CRC, so that the
+    // track / sector record parser and `Sector::unpack` see arbitrary field values (oracle only, not modelled)
+    let n = r.ctx.n(400, 15000);
+    let mut tds: Vec<Vec<u8>> = vec![td0_synth(&mut Rng::new(1), 0), td0_synth(&mut Rng::new(2), 1), td0_synth(&mut Rng::new(3), 2), td0_synth(&mut Rng::new(4), 3), td0_synth(&mut Rng::new(5), 4)];
+    for k in 0..n { let mut g = rng.fork(0x7D0 + k as u64); let fl = 5 + g.below(12); tds.push(td0_synth(&mut g, fl)); }
+    for b in tds {
+        let Some(idx) = r.claim() else { continue };
+        let desc = cliphex(&b, 200);
+        r.mark(idx, "td0/from_bytes", &desc);
+        let b2 = b.clone();
+        let o = watched(5000, move || {
+            let mut img = a2kit::img::td0::Td0::from_bytes(&b2).map_err(|_| ())?;
+            // a sector read and the geometry go through `Sector::unpack` and the track tables
+            let _ = img.read_sector(0, 0, 1); let _ = img.read_sector(0, 0, 0); let _ = img.byte_capacity(); let _ = img.get_track_solution(0);
+            let _ = img.read_block(Block::FAT((0, 1))); let _ = img.read_block(Block::CPM((0, 3, 0)));
+            Ok(String::new())
+        });
+        r.verdict(idx, "td0/from_bytes", &o, &desc);
+        r.case(&b, true);
+    }
+    // F6 bios::fat::get_cluster: entry numbers around what the buffer holds (functional tie incl. the value).
+    // A panic here is NOT a failure of the property by itself (callers must guard with clus_in_rng), so no oracle line.
+    let n = r.ctx.n(300, 10000);
+    for k in 0..n {
+        let mut g = rng.fork(0xFA6 + k as u64);
+        let typ = *g.pick(&[12usize, 12, 12, 16, 16, 32, 8]);
+        let len = *g.pick(&[0usize, 1, 2, 3, 5, 6, 9, 12, 16, 24, 33, 48]);
+        let fat = g.bytes(len);
+        let cap = if typ == 8 { 4 } else { len * 8 / typ };
+        let nn = (cap as i64 + g.range(0, 6) as i64 - 4).max(0) as usize;
+        let Some(idx) = r.claim() else { continue };
+        let desc = format!("get_cluster({},{},{})", nn, typ, hx(&fat));
+        r.mark(idx, "fat/get_cluster", &desc);
+        let f2 = fat.clone();
+        let o = watched(3000, move || Ok(a2kit::bios::fat::get_cluster(nn, typ, &f2).to_string()));
+        let ans = match &o { Outc::Ok(v) => format!("ok {}", v), other => other.class().to_string() };
+        r.q(&format!("c12 fatget {} {} {}", typ, nn, hx(&fat)), &ans);
+        r.count(&format!("fatget:{}", o.class()));
+        r.case(desc.as_bytes(), true);
+    }
+}
+
+fn td0_crc16(buf: &[u8]) -> u16 {
+    let mut crc: u16 = 0;
+    for b in buf { crc ^= (*b as u16) << 8; for _ in 0..8 { crc = (crc << 1) ^ if crc & 0x8000 != 0 { 0xa097 } else { 0 }; } }
+    crc
+}
+
+/// a small normal-mode TD0 file.  flavour 0: well formed (1 track, 2 sectors of 128 bytes, terminator);
+/// 1: no terminator; 2: no tracks; 3: sector size code 64; 4: file ends inside a sector header; >4: random fields
+fn td0_synth(g: &mut Rng, flavour: usize) -> Vec<u8> {
+    let mut b: Vec<u8> = vec![b'T', b'D', 0, 0, 0x15, 0, 1, 0, 0, 1];
+    let crc = td0_crc16(&b); b.extend_from_slice(&crc.to_le_bytes());
+    let rnd = flavour > 4;
+    let ntracks = if flavour == 2 { 0 } else if rnd { g.below(3) } else { 1 };
+    for t in 0..ntracks {
+        let nsec = if rnd { g.below(4) as u8 } else { 2 };
+        let th = [nsec, t as u8, if rnd { *g.pick(&[0u8, 1, 0x80, 0xFF]) } else { 0 }];
+        b.extend_from_slice(&th); b.push((td0_crc16(&th) & 0xff) as u8);
+        for sct in 0..nsec {
+            let shift = if flavour == 3 { 64 } else if rnd { *g.pick(&[0u8, 0, 0, 1, 6, 7, 63, 64, 200, 255]) } else { 0 };
+            let flags = if rnd { *g.pick(&[0u8, 0, 0, 0x10, 0x20, 0x02, 0xFF]) } else { 0 };
+            b.extend_from_slice(&[t as u8, 0, sct + 1, shift, flags, 0]);
+            if flavour == 4 && sct == 1 { b.truncate(b.len() - 3); return b; }
+            if flags & 0x30 == 0 {
+                let enc = if rnd { *g.pick(&[0u8, 1, 2, 1, 3, 0xFF]) } else { 1 };
+                let body: Vec<u8> = match enc {
+                    0 => { let n = if rnd { *g.pick(&[128usize, 127, 0, 256]) } else { 128 }; (0..n).map(|i| i as u8).collect() }
+                    1 => { let cnt: u16 = if rnd { *g.pick(&[64u16, 0, 1, 65, 0xFFFF]) } else { 64 }; let mut v = cnt.to_le_bytes().to_vec(); v.extend_from_slice(&[0xE5, 0xE5]); if rnd && g.chance(30) { v.extend_from_slice(&[1, 0, 1, 2]); } v }
+                    2 => { let mut v = Vec::new(); for _ in 0..g.range(1, 6) { let rc = *g.pick(&[0u8, 1, 2, 64, 255]); v.push(rc); if rc == 0 { let n = g.below(6) as u8; v.push(n); v.extend(g.bytes(n as usize)); } else { v.push(*g.pick(&[0u8, 1, 2, 255])); v.extend(g.bytes(2 * rc as usize)); } } v }
+                    _ => g.bytes(4),
+                };
+                let declared: u16 = if rnd && g.chance(25) { *g.pick(&[0u16, 1, 0xFFFF, 5000]) } else { body.len() as u16 + 1 };
+                b.extend_from_slice(&declared.to_le_bytes()); b.push(enc); b.extend(body);
+            }
+        }
+    }
+    if flavour != 1 && !(rnd && g.chance(20)) { b.push(0xff); }
+    if rnd && g.chance(15) { let n = g.below(b.len() - 12) + 12; b.truncate(n); }
+    b
+}
+
+/// a small IMD file: 29 header bytes, comment, 0x1A, 0..3 track records with 0..3 sectors of 128 << shift bytes
+fn imd_synth(g: &mut Rng, flavour: usize) -> Vec<u8> {
+    let mut b: Vec<u8> = match flavour { 5 => b"IMD 2.00: 01/01/2000 00:00:00\r\n".to_vec(), 6 => b"IMX 1.18: 01/01/2000 00:00:00\r\n".to_vec(), _ => b"IMD 1.18: 01/01/2000 00:00:00\r\n".to_vec() };
+    b.truncate(31);
+    match g.below(6) { 0 => {}, 1 => b.extend_from_slice(b"hello"), 2 => b.extend_from_slice("h\u{e9}\u{20ac}\u{1F600}".as_bytes()), 3 => b.extend_from_slice(&[0x41, 0xC0, 0x80]),
+        4 => b.extend_from_slice(&[0xED, 0xA0, 0x80]), _ => b.extend_from_slice(&[0xE2, 0x82]) }
+    if flavour != 7 { b.push(0x1a); }
+    for _t in 0..g.below(4) {
+        let nsec = g.below(4) as u8;
+        let shift = *g.pick(&[0u8, 0, 0, 1, 2, 6, 7, 255]);
+        let head = *g.pick(&[0u8, 1, 0x80, 0x40, 0xC1]);
+        b.extend_from_slice(&[5, g.below(3) as u8, head, nsec, shift]);
+        let maps = 1 + (head >> 7) as usize + ((head >> 6) & 1) as usize;
+        for _ in 0..maps { for s in 0..nsec { b.push(s + 1); } }
+        let ssz = 128usize << (shift.min(2));
+        for _ in 0..nsec {
+            let code = *g.pick(&[0u8, 1, 2, 3, 4, 5, 6, 7, 8, 1, 2, 9]);
+            b.push(code);
+            match code { 1 | 3 | 5 | 7 => { let f = g.byte(); b.extend(std::iter::repeat(f).take(ssz)); } 2 | 4 | 6 | 8 => b.push(g.byte()), _ => {} }
+        }
+    }
+    b
 }
 
 /// a WOZ2 file from (chunk id, declared size, flavour) + `tail` trailing bytes; INFO bodies are plausible with
@@ -647,6 +815,8 @@ pub fn build_seeds(thorough: bool) -> Vec<Seed> {
     add("do/cpm", "do", "cpm", true, &|| Some((Box::new(dsk_do::DO::create(35, 16)), names::A2_DOS33_KIND)));
     add("img/fat-360", "img", "fat", true, &|| { let k = DiskKind::D525(names::IBM_DSDD_9); Some((Box::new(dsk_img::Img::create(k)), k)) });
     add("img/fat-160", "img", "fat", true, &|| { let k = DiskKind::D525(names::IBM_SSDD_8); Some((Box::new(dsk_img::Img::create(k)), k)) });
+    // 180K: one FAT sector holds 341 entries but the data region has 353 clusters (usable < abstract)
+    add("img/fat-180", "img", "fat", true, &|| { let k = DiskKind::D525(names::IBM_SSDD_9); Some((Box::new(dsk_img::Img::create(k)), k)) });
     add("po/prodos-800", "po", "prodos", true, &|| Some((Box::new(dsk_po::PO::create(1600)), names::A2_800_KIND)));
     // --- containers with a header or an encoding
     add("2mg-do/prodos", "2mg", "prodos", false, &|| dot2mg::Dot2mg::create(254, names::A2_DOS33_KIND, w("do").as_ref()).ok().map(|i| (i, names::A2_DOS33_KIND)));
@@ -680,6 +850,8 @@ pub fn build_seeds(thorough: bool) -> Vec<Seed> {
         add("td0/fat-720", "td0", "fat", false, &|| { let k = DiskKind::D35(names::IBM_720); Some((Box::new(td0::Td0::create(k)), k)) });
         add("td0/cpm-osb-sd", "td0", "cpm", false, &|| Some((Box::new(td0::Td0::create(names::OSBORNE1_SD_KIND)), names::OSBORNE1_SD_KIND)));
         add("img/fat-1200", "img", "fat", true, &|| { let k = DiskKind::D525(names::IBM_DSHD); Some((Box::new(dsk_img::Img::create(k)), k)) });
+        add("imd/fat-180", "imd", "fat", false, &|| { let k = DiskKind::D525(names::IBM_SSDD_9); Some((Box::new(imd::Imd::create(k)), k)) });
+        add("td0/fat-180", "td0", "fat", false, &|| { let k = DiskKind::D525(names::IBM_SSDD_9); Some((Box::new(td0::Td0::create(k)), k)) });
         add("img/fat-720", "img", "fat", true, &|| { let k = DiskKind::D35(names::IBM_720); Some((Box::new(dsk_img::Img::create(k)), k)) });
     }
     v
@@ -723,6 +895,31 @@ enum Mutn {
     Extend(usize, u8),
     /// byte `off` of FS block := value  (written through the image layer, so the container stays valid)
     Blk(BlockRef, usize, u8),
+    /// little-endian field of `width` bytes at `off` of FS block := value
+    BlkLE(BlockRef, usize, usize, u64),
+    /// several bytes of one FS block at once (fields that only matter in combination)
+    BlkMany(BlockRef, Vec<(usize, u8)>),
+    /// FAT entry `n` := value, in every copy of the FAT (the mount repairs the first FAT from the backups)
+    FatEnt(usize, u32),
+}
+
+/// what the boot sector of a FAT seed says: (bits per entry, usable clusters, clusters in the data region,
+/// entries the FAT buffer can hold, first root sector, root sectors, sectors per cluster, reserved, FATs, FAT sectors)
+#[derive(Clone, Copy, Debug)]
+struct FatGeom { typ: usize, usable: usize, abstract_: usize, entries: usize, root: u64, rootsecs: u64, spc: u64, res: u64, nfats: u64, fsz: u64 }
+fn fat_geom(b: &[u8]) -> Option<FatGeom> {
+    if b.len() < 64 { return None; }
+    let bps = b[11] as u64 + 256 * b[12] as u64; let spc = b[13] as u64;
+    let res = b[14] as u64 + 256 * b[15] as u64; let nf = b[16] as u64; let fsz = b[22] as u64 + 256 * b[23] as u64;
+    let ents = b[17] as u64 + 256 * b[18] as u64; let tot = b[19] as u64 + 256 * b[20] as u64;
+    if bps == 0 || spc == 0 || fsz == 0 { return None; }
+    let rootsecs = (ents * 32 + bps - 1) / bps;
+    let over = res + nf * fsz + rootsecs;
+    if tot <= over { return None; }
+    let a = ((tot - over) / spc) as usize;
+    let typ = if a < 4085 { 12 } else { 16 };
+    let entries = (fsz * bps * 8 / typ as u64) as usize;
+    Some(FatGeom { typ, usable: a.min(entries.saturating_sub(2)), abstract_: a, entries, root: res + nf * fsz, rootsecs, spc, res, nfats: nf, fsz })
 }
 
 #[derive(Clone, Copy, Debug)]
@@ -813,7 +1010,145 @@ fn apply(seed: &Seed, m: &Mutn) -> Option<Vec<u8>> {
                 Some(img.to_bytes())
             }).ok().flatten()
         }
+        Mutn::BlkLE(rf, off, w, v) => {
+            let (rf, off, w, v) = (*rf, *off, *w, *v);
+            let bytes = seed.bytes.clone(); let ext = seed.ext;
+            guarded(move || -> Option<Vec<u8>> {
+                let mut img = a2kit::create_img_from_bytestream(&bytes, Some(ext)).ok()?;
+                let mut blk = img.read_block(rf.to_block()).ok()?;
+                if off + w > blk.len() { return None; }
+                for i in 0..w { blk[off + i] = (v >> (8 * i)) as u8; }
+                img.write_block(rf.to_block(), &blk).ok()?;
+                Some(img.to_bytes())
+            }).ok().flatten()
+        }
+        Mutn::BlkMany(rf, pokes) => {
+            let (rf, pokes) = (*rf, pokes.clone());
+            let bytes = seed.bytes.clone(); let ext = seed.ext;
+            guarded(move || -> Option<Vec<u8>> {
+                let mut img = a2kit::create_img_from_bytestream(&bytes, Some(ext)).ok()?;
+                let mut blk = img.read_block(rf.to_block()).ok()?;
+                for (off, v) in pokes { if off >= blk.len() { return None; } blk[off] = v; }
+                img.write_block(rf.to_block(), &blk).ok()?;
+                Some(img.to_bytes())
+            }).ok().flatten()
+        }
+        Mutn::FatEnt(n, v) => {
+            let (n, v) = (*n, *v);
+            let bytes = seed.bytes.clone(); let ext = seed.ext;
+            guarded(move || -> Option<Vec<u8>> {
+                let mut img = a2kit::create_img_from_bytestream(&bytes, Some(ext)).ok()?;
+                let boot = img.read_block(Block::FAT((0, 1))).ok()?;
+                let g = fat_geom(&boot)?;
+                let ssz = boot.len();
+                for copy in 0..g.nfats {
+                    let first = g.res + copy * g.fsz;
+                    let mut fat: Vec<u8> = Vec::new();
+                    for s in 0..g.fsz { fat.extend(img.read_block(Block::FAT((first + s, 1))).ok()?); }
+                    if g.typ == 12 {
+                        let o = n + n / 2;
+                        if o + 1 >= fat.len() { return None; }
+                        let old = u16::from_le_bytes([fat[o], fat[o + 1]]);
+                        let new = if n & 1 == 1 { (old & 0x000f) | ((v as u16) << 4) } else { (old & 0xf000) | (v as u16 & 0x0fff) };
+                        fat[o] = new as u8; fat[o + 1] = (new >> 8) as u8;
+                    } else {
+                        let o = n * 2;
+                        if o + 1 >= fat.len() { return None; }
+                        fat[o] = v as u8; fat[o + 1] = (v >> 8) as u8;
+                    }
+                    for s in 0..g.fsz as usize { img.write_block(Block::FAT((first + s as u64, 1)), &fat[s * ssz..(s + 1) * ssz]).ok()?; }
+                }
+                Some(img.to_bytes())
+            }).ok().flatten()
+        }
     }
+}
+
+/// Two-step cases that byte-wise corruption does not reach: a pointer field set to a value just inside or just
+/// outside what the *next* structure can hold (FAT first-cluster fields and FAT links around the usable and the
+/// abstract cluster count and the capacity of the FAT buffer; block pointers around the volume size; track/sector
+/// pairs around the geometry; WOZ track bit counts just above the track's own buffer).  Always run in full.
+fn targeted(seed: &Seed, blocks: &[(BlockRef, Vec<u8>)], thorough: bool) -> Vec<Mutn> {
+    let mut m: Vec<Mutn> = Vec::new();
+    let b = &seed.bytes;
+    match seed.fs {
+        "fat" => {
+            let boot = blocks.iter().find(|(rf, _)| matches!(rf, BlockRef::FAT(0)));
+            if let Some(g) = boot.and_then(|(_, d)| fat_geom(d)) {
+                let mut vals: Vec<u64> = Vec::new();
+                for base in [2 + g.usable, 2 + g.abstract_, g.entries] { for d in [-2i64, -1, 0, 1, 2] { vals.push((base as i64 + d) as u64); } }
+                vals.extend([0, 1, 0xFF6, 0xFF7]);
+                vals.sort(); vals.dedup();
+                // every value `BPBFoundation::verify` accepts for the sector size and the cluster size, and FAT sizes around the real one
+                for v in [512u64, 1024, 2048, 4096] { m.push(Mutn::BlkLE(BlockRef::FAT(0), 11, 2, v)); }
+                for v in [1u8, 2, 4, 8, 16, 32, 64, 128] { m.push(Mutn::Blk(BlockRef::FAT(0), 13, v)); }
+                for v in [g.fsz - 1, g.fsz + 1, g.fsz * 2, 255] { if v > 0 { m.push(Mutn::BlkLE(BlockRef::FAT(0), 22, 2, v)); } }
+                for v in [1u64, 2, 8] { m.push(Mutn::BlkLE(BlockRef::FAT(0), 14, 2, v)); }
+                // sector size doubled (accepted by verify) with a FAT that is then too small for the data region
+                for fs in [1u8, 2] { for ss in [4u8, 8] { m.push(Mutn::BlkMany(BlockRef::FAT(0), vec![(11, 0), (12, ss), (22, fs), (23, 0)])); } }
+                for (rf, data) in blocks {
+                    let is_dir = match rf { BlockRef::FAT(s) => *s >= g.root, _ => false };
+                    if !is_dir { continue; }
+                    for e in 0..data.len() / 32 {
+                        let d = &data[e * 32..e * 32 + 32];
+                        if d[0] == 0 || d[0] == 0xE5 || d[11] & 0x08 != 0 || d[0] == b'.' { continue; }
+                        for v in &vals { m.push(Mutn::BlkLE(*rf, e * 32 + 26, 2, *v)); }
+                        let c = d[26] as usize + 256 * d[27] as usize;
+                        if c >= 2 {
+                            for v in &vals { m.push(Mutn::FatEnt(c, *v as u32)); }
+                            if d[28] as usize + 256 * d[29] as usize > 2 * 512 * g.spc as usize { for v in &vals { m.push(Mutn::FatEnt(c + 1, *v as u32)); } }
+                        }
+                    }
+                }
+            }
+        }
+        "prodos" => {
+            let total = blocks.iter().find(|(rf, _)| matches!(rf, BlockRef::PO(2))).map(|(_, d)| d[0x29] as u64 + 256 * d[0x2a] as u64).unwrap_or(280);
+            for (rf, data) in blocks {
+                if !matches!(rf, BlockRef::PO(2)) { continue; }
+                for e in 1..13 {
+                    let o = 4 + e * 39;
+                    if o + 39 > data.len() || data[o] == 0 { continue; }
+                    for v in [total - 1, total, total + 1, 0xFFFF] { m.push(Mutn::BlkLE(*rf, o + 0x11, 2, v)); }
+                    for v in [0xFFFFFFu64, 0x1000000 - 1, 512 * total] { m.push(Mutn::BlkLE(*rf, o + 0x15, 3, v)); }
+                }
+                for v in [total - 1, total, total + 1] { m.push(Mutn::BlkLE(*rf, 2, 2, v)); }
+            }
+        }
+        "pascal" => {
+            for (rf, data) in blocks {
+                if !matches!(rf, BlockRef::PO(2)) { continue; }
+                let total = data[14] as u64 + 256 * data[15] as u64;
+                for e in 1..8 {
+                    let o = e * 26;
+                    if data[o] == 0 && data[o + 1] == 0 { continue; }
+                    for v in [total - 1, total, total + 1, 0xFFFF] { m.push(Mutn::BlkLE(*rf, o, 2, v)); m.push(Mutn::BlkLE(*rf, o + 2, 2, v)); }
+                }
+                for v in [5u64, 6, 7, 20, 21, 77, 78] { m.push(Mutn::BlkLE(*rf, 2, 2, v)); m.push(Mutn::BlkLE(*rf, 16, 2, v)); }
+            }
+        }
+        "dos33" | "dos32" => {
+            let secs: u64 = if seed.fs == "dos33" { 16 } else { 13 };
+            for (rf, data) in blocks.iter().skip(3) { // the T/S lists
+                let _ = data;
+                for k in 0..3 { for (t, s2) in [(35u64, 0u64), (34, secs), (34, secs - 1), (255, 255)] { m.push(Mutn::BlkLE(*rf, 12 + 2 * k, 2, t + 256 * s2)); } }
+                m.push(Mutn::BlkLE(*rf, 1, 2, 35)); m.push(Mutn::BlkLE(*rf, 1, 2, 17 + 256 * secs));
+            }
+        }
+        _ => {}
+    }
+    if seed.ext == "woz" && b.len() > 300 {
+        let tracks: Vec<usize> = if thorough { (0..35).collect() } else { vec![0, 1, 2, 16, 17, 18, 19] };
+        if b[3] == b'2' {
+            for t in tracks { let o = 256 + 8 * t; let cap = (b[o + 2] as u64 + 256 * b[o + 3] as u64) * 512 * 8;
+                if cap == 0 { continue; }
+                for d in [1u64, 8, 64, 4096] { m.push(Mutn::PokeLE(o + 4, 4, cap + d)); } }
+        } else {
+            for t in tracks { let o = 256 + 6656 * t + 6648; if o + 2 > b.len() { continue; }
+                for v in [53169u64, 53176, 53232, 60000] { m.push(Mutn::PokeLE(o, 2, v)); } }
+        }
+    }
+    m
 }
 
 /// offsets in the seed file that belong to container structures (headers, chunk headers, track headers)
@@ -902,6 +1237,9 @@ fn stream_images(r: &mut Run) {
             keep.truncate(budget); keep.sort();
             muts = keep.into_iter().map(|i| muts[i].clone()).collect();
         }
+        let tg = targeted(seed, &blocks, thorough);
+        r.count_n(&format!("img:{}:targeted", seed.name), tg.len() as u64);
+        muts.extend(tg);
         r.count_n(&format!("img:{}:mutations-enumerated", seed.name), total as u64);
         // the untouched seed
         if let Some(idx) = r.claim() {
